@@ -41,6 +41,14 @@ func (c *connection) onHup(p Poll) error {
 	onRequest := c.onRequestCallback.Load()
 	needCloseByUser := onConnect == nil && onRequest == nil
 	if !needCloseByUser {
+		// input that is still buffered must be offered to OnRequest before the close callbacks
+		// run: the processing task does both. If a task is already running, it does so on exit.
+		// (Not before OnConnect has started: its task must be the first one to run.)
+		if fn, ok := onRequest.(OnRequest); ok && c.Reader().Len() > 0 &&
+			(onConnect == nil || c.getState() != connStateNone) {
+			c.onProcess(nil, fn)
+			return nil
+		}
 		// already PollDetach when call OnHup
 		c.closeCallback(true, false)
 	}
